@@ -108,3 +108,86 @@ func refUTF8(b []byte) bool {
 }
 
 func cont(c, lo, hi byte) bool { return c >= lo && c <= hi }
+
+// refDetItem is an independent recogniser of ONE complete item in RFC 8949 core deterministic form
+// over major types 0, 2, 3, 4, 5: shortest heads, definite lengths, content inside the input, map keys
+// strictly ascending in bytewise order of their encodings.  Returns the item's length.
+func refDetItem(b []byte) (int, bool) {
+	major, arg, used, ok := refHead(b)
+	if !ok || !refShortest(arg, used) {
+		return 0, false
+	}
+	switch major {
+	case 0:
+		return used, true
+	case 2, 3:
+		if arg > uint64(len(b)-used) {
+			return 0, false
+		}
+		return used + int(arg), true
+	case 4:
+		pos := used
+		for i := uint64(0); i < arg; i++ {
+			if pos >= len(b) {
+				return 0, false
+			}
+			n, ok := refDetItem(b[pos:])
+			if !ok {
+				return 0, false
+			}
+			pos += n
+		}
+		return pos, true
+	case 5:
+		pos := used
+		var prev []byte
+		for i := uint64(0); i < arg; i++ {
+			if pos >= len(b) {
+				return 0, false
+			}
+			kn, ok := refDetItem(b[pos:])
+			if !ok {
+				return 0, false
+			}
+			key := b[pos : pos+kn]
+			if i > 0 && !refLess(prev, key) {
+				return 0, false
+			}
+			prev = key
+			pos += kn
+			if pos >= len(b) {
+				return 0, false
+			}
+			vn, ok := refDetItem(b[pos:])
+			if !ok {
+				return 0, false
+			}
+			pos += vn
+		}
+		return pos, true
+	}
+	return 0, false
+}
+
+// refLess: strict bytewise lexicographic order.
+func refLess(a, b []byte) bool {
+	for i := 0; i < len(a) && i < len(b); i++ {
+		if a[i] != b[i] {
+			return a[i] < b[i]
+		}
+	}
+	return len(a) < len(b)
+}
+
+// refDetSeq: a (possibly empty) sequence of complete deterministic items exactly filling b.
+func refDetSeq(b []byte) bool {
+	pos := 0
+	for pos < len(b) {
+		n, ok := refDetItem(b[pos:])
+		if !ok {
+			return false
+		}
+		pos += n
+	}
+	return true
+}
